@@ -328,6 +328,11 @@ def run(prog, chk):
             r4.ok("cif_loop_set_category", "%d refusals with CIF_RESERVED_LOOP, all before the UPDATE" % n_ref)
     else:
         r4.violation(sc_fn.file, sc_fn.name, sc_fn.line, "reserved-guards", "expected two CIF_RESERVED_LOOP refusals, found %d" % n_ref)
+    r4b = chk.rule("R4b-reserved-category-guards-on-every-path", "in cif_loop_set_category every statement that stores the new category "
+                   "(the UPDATE's step, the handle's cached copy) is reached only after the new category was found NULL or non-empty "
+                   "AND the loop's present category was examined: \"\" can be neither given to nor taken from a loop", primary=False, floor=2)
+    from .. import catguard
+    catguard.rule(prog, r4b)
     chk.extra_cov["statements"] = len(m.statements)
     chk.extra_cov["bind_column_sites"] = len(m.sites)
     chk.extra_cov["raised_messages"] = sorted(raised)
